@@ -237,15 +237,26 @@ LeafOr(ty, P) == LET pool == LitPool(ty, P)
                     ELSE LET j == CHOOSE j \in 2..Len(pool) : LitVal(LitKind(ty), pool[j]) # LitVal(LitKind(ty), pool[1])
                                                             /\ \A i \in 2..(j - 1) : LitVal(LitKind(ty), pool[i]) = LitVal(LitKind(ty), pool[1])
                          IN {POr(Lit(LitKind(ty), pool[1]), Lit(LitKind(ty), pool[j]))}
-Styles(top, n) == IF top THEN (IF n >= 2 THEN {"pos", "named", "rev"} ELSE {"pos", "named"})
-                  ELSE (IF n >= 2 THEN {"pos", "rev"} ELSE {"pos"})
+\* top-level patterns come positional and by name in reverse declaration order (single field: by name);
+\* nested ones positional and reversed
+Styles(top, n) == IF n >= 2 THEN {"pos", "rev"} ELSE IF top THEN {"pos", "named"} ELSE {"pos"}
 VStyles(v, top) == IF v.fs = <<>> THEN {"none"} ELSE IF v.named THEN Styles(top, Len(v.fs)) ELSE {"pos"}
 
-\* non-or patterns of depth <= d (leaf types: all literals at every depth); sub-positions may carry LeafOr
+\* literals offered in nested positions: for int and string one spelling per value (respellings are
+\* enumerated for the leaf types themselves), everything for bool, void, float
+RECURSIVE DistinctVals(_, _, _)
+DistinctVals(t, pool, acc) ==
+  IF pool = <<>> THEN acc
+  ELSE IF \E i \in 1..Len(acc) : LitVal(t, acc[i]) = LitVal(t, pool[1]) THEN DistinctVals(t, Tail(pool), acc)
+  ELSE DistinctVals(t, Tail(pool), Append(acc, pool[1]))
+NestedLits(ty, P) == IF ty.k \in {"int", "string"}
+                     THEN {Lit(LitKind(ty), s) : s \in RngS(DistinctVals(LitKind(ty), LitPool(ty, P), <<>>))}
+                     ELSE LeafLits(ty, P)
+\* non-or patterns of depth <= d (leaf types: literals at every depth); sub-positions may carry LeafOr
 RECURSIVE BasePats(_, _, _, _)
 BasePats(ty, d, top, P) ==
   LET atoms == {Wild, Bnd} IN
-  IF IsLeafTy(ty) THEN atoms \cup LeafLits(ty, P) \cup (IF top THEN {} ELSE LeafOr(ty, P))
+  IF IsLeafTy(ty) THEN atoms \cup (IF top THEN LeafLits(ty, P) ELSE NestedLits(ty, P) \cup LeafOr(ty, P))
   ELSE IF d = 0 THEN atoms
   ELSE atoms \cup
     CASE ty.k = "tuple" -> {PTup(s) : s \in SeqsOver([i \in 1..Len(ty.ts) |-> BasePats(ty.ts[i], d - 1, FALSE, P)])}
@@ -268,7 +279,7 @@ IrrPats(ty, d, top) ==
   ELSE IF d = 0 \/ ty.k \notin {"tuple", "struct"} THEN atoms
   ELSE atoms \cup
     CASE ty.k = "tuple" -> {PTup(s) : s \in SeqsOver([i \in 1..Len(ty.ts) |-> IrrPats(ty.ts[i], d - 1, FALSE)])}
-      [] ty.k = "struct" -> {PStruct(st, s) : st \in Styles(TRUE, Len(ty.fs)),
+      [] ty.k = "struct" -> {PStruct(st, s) : st \in {"pos", "named", "rev"},
                                               s \in SeqsOver([i \in 1..Len(ty.fs) |-> IrrPats(ty.fs[i].t, d - 1, FALSE)])}
 
 \* ------------------------------------------------------------- concrete syntax
